@@ -463,6 +463,17 @@ func run(t *testing.T, mode string) {
 		}
 		all = append(all, ws...)
 	}
+	// race mode: TopN by rank against imports / recalculations of the same fragment's cache
+	if mode == "race" {
+		nRank := 4
+		if behav.Thorough() {
+			nRank = 30
+		}
+		nRank = behav.EnvInt("VERIF_NRANK", nRank)
+		for i := 0; i < nRank; i++ {
+			all = append(all, GenerateRank(seed, []string{"frag", "api"}[i%2], len(all)))
+		}
+	}
 	// workloads whose clients make the first use of new row keys at the same time (each
 	// several times: the overlap inside the translation is a matter of microseconds)
 	if mode == "lin" {
@@ -537,6 +548,9 @@ func run(t *testing.T, mode string) {
 		}
 		if w.RowKeys {
 			res.Cover("api:row_keys_first_use")
+		}
+		if w.Rank {
+			res.Cover("rank_cache_topn_vs_import:" + w.Level)
 		}
 		if !bad[w.Idx] {
 			res.CountEval()
